@@ -15,7 +15,7 @@ CHECKS = {
          "Every listed size around 1x and 2x (2^24-1) is realised by several assemblies (text row with cell boundaries before/at/after the limit, binary row, ERR message, huge column name), generated rows of 17-70 MB are laid out against the packet boundaries (several long cells, cells of 3 packets, small cells straddling a boundary), one case in four runs on a transport that fails once and recovers (bytes handed over must stay a prefix of the fault-free output when a packet was cut) and the raw output is re-framed by an independent splitter/reassembler: the message must arrive as one logical message of exactly the intended bytes. Thousands of generated small/medium sizes cover the length-encoding classes.",
          "Messages beyond ~4*(2^24-1) bytes are not explored; trusts the reference framer (its reassembly rule is the documented one)."),
  "C05": ("exploration", "proptest-generated conversations with generated request sequence ids and long responses; invariant oracle over every physical packet",
-         "Every packet of every reply is checked against last_request_id+1+i mod 256, for request ids over 0-255 (255 favoured), responses of up to ~1100 packets and enumerated multi-fragment requests.",
+         "Every packet of every reply is checked against last_request_id+1+i mod 256, for request ids over 0-255 (255 favoured), responses of up to ~1100 packets (enumerated: 2^16 and more), enumerated multi-fragment requests, and one conversation in 20 inside a TLS session (ids of the decrypted packets, also when the shim refuses the client there).",
          "Requests whose own fragments wrap past id 255 are outside the domain (C20 covers them)."),
  "C12": ("exploration", "proptest-generated conversations x arrival schedules (lock-step via an embedded reference client, pipelined, partial chunkings); safety invariant evaluated at every read() of the scripted transport",
          "The liveness-sounding statement is decided as a safety invariant at the only point the server can wait (a read() call): all wholly received commands must already be answered in bytes covered by the last flush(). In lock-step mode the transport only releases the next command when the previous reply was decoded from flushed bytes, so a missing flush shows as 'would block forever'.",
@@ -54,7 +54,7 @@ CHECKS = {
          "Generated search over interleavings of chunks (sizes 0 to 70000, one >= 2^24 bytes enumerated) for several statements and parameters with executions whose long-data parameters are omitted inline; the addressed parameters must arrive as the in-order concatenation, everything else as encoded, exactly once, never in another statement.",
          "Long data is addressed to string-typed, non-NULL parameters as client libraries do."),
  "C11": ("exploration", "proptest-generated handshake responses (4.1 and 3.20 layouts, random capability masks, arbitrary non-NUL user names, trailing bytes, sequence ids) x TLS configured or not x shim accepts or rejects x pipelined commands; oracle = reference greeting decoder (+ mysql_common::HandshakePacket) and the ordered callback log",
-         "Generated search over the handshake domain the property lists; the greeting must be a well-formed protocol-10 greeting with the right capability bits, flushed before the first read; after_authentication must run exactly once, first, with the exact user bytes; a rejection must yield ERR 1045/28000, the shim's own error from run_on and no command callback even when commands are already pipelined.",
+         "Generated search over the handshake domain the property lists; the greeting must be a well-formed protocol-10 greeting with the right capability bits, flushed before the first read; after_authentication must run exactly once, first, with the exact user bytes; a rejection must yield ERR 1045/28000, the shim's own error from run_on and no command callback even when commands are already pipelined. One case in 12 has the peer go away during set-up; after every case an ordinary connection served by the same thread must start with its greeting (canary).",
          "The SSL-requested-and-configured case is C18's."),
  "C18": ("exploration", "proptest-generated TLS upgrades: a rustls ClientConnection embedded in the scripted transport x chunk schedules around the SSLRequest/ClientHello boundary x {TLS 1.2, 1.3} x client certificate or not x lock-step or pipelined conversations; oracle = rustls accepts every server byte after the greeting as TLS records, callback log (user name, DER chain) and a differential against the same conversation in plaintext",
          "Generated search over all split points of the client stream around the SSL request (cut inside it, SSL request + k bytes of the ClientHello in one read, everything in one read, 1-byte reads) and arbitrary chunkings of the rest of the handshake; the decrypted replies must equal the plaintext run message for message, nothing may be sent in plaintext after the greeting, the client must never be left waiting, and a TLS request to a shim without configuration must fail before after_authentication.",
@@ -62,9 +62,9 @@ CHECKS = {
  "C19": ("fault_enumeration", "proptest-generated conversations, each re-run with every fault point enumerated (EOF after k bytes, one-off / persistent error and zero-length write at every transport operation, shim error at every callback); oracle = Ok/Err classification, panic capture, prefix relation of callback logs",
          "For each generated conversation the fault space is enumerated exhaustively from its own fault-free operation trace (about 500 faulted runs per conversation, ~200000 per quick run): connection end is Ok exactly at command boundaries after the handshake, every transport fault yields Err (never Ok, never a panic) with no callback started after the fault, shim errors come back unchanged.",
          "Injected errors are of a kind std does not retry (not Interrupted); faults are injected in plaintext conversations."),
- "C20": ("exploration", "exhaustive enumeration of short payloads / raw streams / parameter-block bodies over reduced alphabets, proptest-driven grammar-aware mutation of valid conversations and random streams, enumerated fragment-sequence-id patterns (coverage-guided libFuzzer campaigns in the thorough tier); oracle = no panic, no wedge (read budget), output is a sequence of well-formed packets",
+ "C20": ("exploration", "exhaustive enumeration of short payloads / raw streams / parameter-block bodies over reduced alphabets, proptest-driven grammar-aware mutation of valid conversations and random streams, enumerated fragment-sequence-id patterns (coverage-guided libFuzzer campaigns in the thorough tier); oracle = no panic, no wedge (read budget; nothing left unflushed or unsaid when the server first waits for more than the client sent), output is a sequence of well-formed packets",
          "All strings up to length 4-5 over alphabets of command bytes and boundary values in four positions (as command, as handshake, unframed after/instead of the handshake) and as execute parameter blocks for four declared parameter counts; hundreds of thousands of mutated conversations; any panic is keyed by a (file, source-line text, message) signature so known sites and new ones are told apart.",
-         "Never establishes absence; a wedge is detected as reads after end-of-stream exceeding a budget, not by a clock."),
+         "Never establishes absence; a wedge is detected as reads after end-of-stream exceeding a budget, or as server output that only appears after the server already waited for input the client never sent - not by a clock."),
 }
 NOT_YET = {}
 
